@@ -178,21 +178,23 @@ def unique_readability_full : Prop :=
   ∀ (G : Table), ParseWF G = true → IdsOK G = true → ∀ d₁ d₂ : Deriv, d₁.WF G = true → d₂.WF G = true →
     d₁.form.origin = G.start → d₂.form.origin = G.start → d₁.yield = d₂.yield → toTree d₁ = toTree d₂
 
-/-! ### Non-vacuity -/
+/-! ### Non-vacuity (stated through the source text, so that it does not depend on how names are interned) -/
 
-/-- `set sleeptime "5";` as a derivation of the generated grammar -/
-def exampleDeriv : Deriv :=
-  ⟨gen.forms[0]!, .sub gen.forms[1]! (.kw 0 (.tok 162 [115, 108, 101, 101, 112, 116, 105, 109, 101]
-      (.sub (gen.forms.find? (fun f => f.origin == 23)).get! (.tok 163 [34, 53, 34] .done) (.kw 1 .done)))) (.stop .done)⟩
+/-- `set sleeptime"5";#x` -/
+def exampleSrc : Text := [115, 101, 116, 32, 115, 108, 101, 101, 112, 116, 105, 109, 101, 34, 53, 34, 59, 35, 120]
 
-example : exampleDeriv.WF gen = true := by decide +kernel
-example : printTree gen (toTree exampleDeriv) = some exampleDeriv.yield := by decide +kernel
-example : (exampleDeriv.yield.map gen.tokText) = [[115, 101, 116], [115, 108, 101, 101, 112, 116, 105, 109, 101], [34, 53, 34], [59]] := by
-  decide +kernel
-example : ∀ t ∈ exampleDeriv.yield, lexableTok gen.words (gen.tokText t) = true := by decide +kernel
-example : terminated (exampleDeriv.yield.map gen.tokText) = true := by decide +kernel
-example : parseText gen [115, 101, 116, 32, 115, 108, 101, 101, 112, 116, 105, 109, 101, 34, 53, 34, 59, 35, 120] = .ok exampleDeriv := by
-  decide +kernel
+/-- the hypotheses of the theorems above hold for the derivation of `exampleSrc`, and it is not the empty profile -/
+def exampleHolds : Bool :=
+  match parseText gen exampleSrc with
+  | .ok d =>
+    d.WF gen && d.form.origin == gen.start && d.yield.length == 4 &&
+    d.yield.map gen.tokText == [[115, 101, 116], [115, 108, 101, 101, 112, 116, 105, 109, 101], [34, 53, 34], [59]] &&
+    printTree gen (toTree d) == some d.yield &&
+    d.yield.all (fun t => lexableTok gen.words (gen.tokText t)) &&
+    terminated (d.yield.map gen.tokText)
+  | _ => false
+
+example : exampleHolds = true := by decide +kernel
 example : IdcOK (fun c => c == 95 || (48 ≤ c && c ≤ 57) || (65 ≤ c && c ≤ 90) || (97 ≤ c && c ≤ 122)) :=
   ⟨by decide, by decide, by decide⟩
 
